@@ -486,6 +486,8 @@ pub struct Report {
     pub jobs: Vec<RunOut>,
     /// each batch query run alone through `app.run` (parallelism 1)
     pub alone: Vec<RunOut>,
+    /// each batch query run alone under the discard policy
+    pub alone_discard: Vec<RunOut>,
     /// number of responses under element-wise semantics (real plugins applied item by item)
     pub ideal: Vec<Option<usize>>,
     /// input stage of each query alone: `Ok(n expanded)` or `Err(encoded canonical error response)`
@@ -577,6 +579,11 @@ fn child_work(fx: &Fixture, batch: &[Value], jobs: &[Job], want_alone: bool, emi
             let o = call_run(app, vec![q.clone()], Some(&one), 0);
             emit(format!("A {} {}", i, out_line(&o)));
         }
+        let one_discard = json!({"parallelism": 1, "response_persistence_policy": "discard_response_from_memory"});
+        for (i, q) in batch.iter().enumerate() {
+            let o = call_run(app, vec![q.clone()], Some(&one_discard), 0);
+            emit(format!("D {} {}", i, out_line(&o)));
+        }
     }
     // 3. tables for the model: recorded opaque plugins, and the single-query function on every expanded query
     let logs: Vec<Arc<Mutex<Vec<TableRec>>>> = fx.plugins.iter().map(|_| Arc::new(Mutex::new(vec![]))).collect();
@@ -660,15 +667,15 @@ fn parse_run_out(rest: &str) -> RunOut {
 }
 
 fn parse_report(text: &str, n_jobs: usize, n_batch: usize, want_alone: bool) -> Report {
-    let mut rep = Report { jobs: vec![RunOut::Dead; n_jobs], alone: if want_alone { vec![RunOut::Dead; n_batch] } else { vec![] }, ideal: vec![None; n_batch], pipe: vec![None; n_batch], ..Default::default() };
+    let mut rep = Report { jobs: vec![RunOut::Dead; n_jobs], alone: if want_alone { vec![RunOut::Dead; n_batch] } else { vec![] }, alone_discard: if want_alone { vec![RunOut::Dead; n_batch] } else { vec![] }, ideal: vec![None; n_batch], pipe: vec![None; n_batch], ..Default::default() };
     for line in text.lines() {
         let (tag, rest) = line.split_once(' ').unwrap_or((line, ""));
         match tag {
-            "J" | "A" => {
+            "J" | "A" | "D" => {
                 let (i, r) = rest.split_once(' ').unwrap_or((rest, ""));
                 let i: usize = i.parse().unwrap_or(usize::MAX);
                 let o = parse_run_out(r);
-                let v = if tag == "J" { &mut rep.jobs } else { &mut rep.alone };
+                let v = if tag == "J" { &mut rep.jobs } else if tag == "A" { &mut rep.alone } else { &mut rep.alone_discard };
                 if i < v.len() {
                     v[i] = o;
                 }
@@ -1467,8 +1474,27 @@ fn run_case(ctx: &mut Ctx, fx: &Fixture, persist_cfg: bool, gens: &[GenQ], plans
         if resp.is_empty() {
             ctx.fail(first_idx, "pipeline/query-unanswered", format!("query {} got no response at all under {}", clip(&g.q.to_string()), fx.label));
         }
-        // exactly one response per expanded query
-        if let Some(ideal) = rep.ideal[i] {
+        // the discard policy keeps exactly the error responses of the input stage: a subset of the responses, all
+        // errors, and not empty when input processing rejects the query
+        if let RunOut::Ok(d) = &rep.alone_discard[i] {
+            let mut pool: Vec<&String> = rs.iter().collect();
+            let mut subset = true;
+            for x in d {
+                match pool.iter().position(|y| *y == x) {
+                    Some(p) => {
+                        pool.swap_remove(p);
+                    }
+                    None => subset = false,
+                }
+            }
+            let all_err = d.iter().all(|x| decode(x).get("error").is_some());
+            let rejected = matches!(rep.pipe[i], Some(Err(_)));
+            if !subset || !all_err || (rejected && d.is_empty()) {
+                ctx.fail(first_idx, "batch/discard-policy", format!("query {} alone under the discard policy returns {} response(s) (subset of the persisted ones: {}, all errors: {}, rejected by input processing: {})", clip(&g.q.to_string()), d.len(), subset, all_err, rejected));
+            }
+        }
+        // exactly one response per expanded query (object queries: what a non-object expands into is not defined)
+        if let (Some(ideal), true) = (rep.ideal[i], g.q.is_object()) {
             if resp.len() < ideal {
                 ctx.fail(first_idx, "pipeline/sibling-responses-lost", format!("query {} expands (item by item, real plugins) into {} queries but only {} response(s) came back under {}: {}", clip(&g.q.to_string()), ideal, resp.len(), fx.label, clip(&Value::Array(resp.clone()).to_string())));
             } else if resp.len() > ideal {
@@ -1527,8 +1553,8 @@ fn run_case(ctx: &mut Ctx, fx: &Fixture, persist_cfg: bool, gens: &[GenQ], plans
                         if let RunOut::Ok(a) = &rep.alone[*i] {
                             want.extend(a.iter().cloned());
                         }
-                    } else if let Some(Err(e)) = &rep.pipe[*i] {
-                        want.push(e.clone());
+                    } else if let RunOut::Ok(a) = &rep.alone_discard[*i] {
+                        want.extend(a.iter().cloned());
                     }
                 }
                 if sorted(want.clone()) != sorted(rs.clone()) {
